@@ -13,7 +13,8 @@ WMaxI128 == <<0, 727, 105, 884, 715, 303, 687, 731, 231, 469, 460, 183, 141, 170
 Anchors == <<WInt(0), WShl3(WInt(1)), WShl3(WInt(-1)), WShl3(WInt(2)), WShl3(WInt(-2)), WShl3(WInt(3)), WShl3(WInt(-3)),
              WShl3(WMinI64), WShl3(WAddInt(WMinI64, -1)), WShl3(WMaxI64), WShl3(WAddInt(WMaxI64, 1)),
              WShl3(MinTW), WAddInt(WShl3(MaxTW), 999999999), WAddInt(WMinI128, R), WAddInt(WMaxI128, -R),
-             WShl3(WInt(951868800)), WShl3(WInt(-86400))>>
+             WShl3(WInt(951868800)), WShl3(WInt(-86400)),
+             WAddInt(WMaxI64, 1), WMinI64>>                     \* 2^63 and -2^63 as COUNTS of nanoseconds (where a 64-bit recombination wraps)
 Init == vK \in 1..Len(Anchors) /\ vDl = -R
 Next == vDl < R /\ vDl' = vDl + 1 /\ vK' = vK
 Spec == Init /\ [][Next]_vars
